@@ -139,6 +139,8 @@ structure DState where
   i64s : List (Nat × FInst I64) := []
   /-- sinks at machine integers (the arithmetic sinks in "the sample type's own arithmetic": truncating division) -/
   isinks : List (Nat × SinkModels.Sk I64) := []
+  /-- what each integer sink has received so far (kind, samples oldest first) -/
+  ihist : List (Nat × String × List Int) := []
   lineNo : Nat := 0
   caseNo : Nat := 0
   nOps : Nat := 0
@@ -354,6 +356,11 @@ def specGuts (i : Inst) (field : String) (impl : String) : List Clause :=
     mk "C06.state" (renderOpt ((Spec.kalmanTextbookRun c zs).map (fun (p : V × V) => p.1)))
   | .kalman c _, "cov" =>
     mk "C06.state" (match Spec.kalmanTextbookRun c zs with | some (p : V × V) => p.2.render | none => (0 : V).render)
+  | .debounce _ p _ _, "count" =>
+    -- "counter of how long input was the same": the trailing run of predicate-equal samples (on top of what an injected
+    -- counter stood for), saturating at the counter's maximum
+    let run := if (heads h).all (· == p) then i.base + h.length else Spec.trailingRun p (heads h)
+    mk "C08.count" (toString (min run (2 ^ 64 - 1)))
   | .integrate _, "value" => mk "C15.state" (Spec.sum (heads h)).render
   | .differentiate _, "value" => mk "C15.state" (renderOpt (heads h).getLast?)
   | _, _ => []
@@ -569,7 +576,10 @@ def stepFilterOp (d : DState) (op : String) (toks impl : List String) : Option (
       let d := d.put id { inst with hist := inst.hist ++ [(args.mapM V.parse).getD []], last := some ((parseOut impl).getD none), own := true }
       some (report d op { model := implS, impl := implS, kind := kindName inst.st }) else
     let xs ← args.mapM V.parse
-    let implOut ← parseOut impl
+    -- an answer that is not a value at all (a rational with denominator 0 out of memory nobody initialised) is not a
+    -- line the driver cannot read, it is a wrong answer
+    let parsed := parseOut impl
+    let implOut := parsed.getD none
     let res := match inst.st with
       | .peaksSlopes o prev => (match xs with
           | [c] => (slopeOfCode c).bind (peaksSlopeStep o prev)
@@ -582,7 +592,7 @@ def stepFilterOp (d : DState) (op : String) (toks impl : List String) : Option (
       let d := d.flag "panic"
       some (report d op { model := "PANIC", impl := implS, kind := kindName inst.st })
     | some (st', y) =>
-      let clauses := match implOut with
+      let clauses := if parsed.isNone then [clauseP "well-formed-output" false (renderOut (some y))] else match implOut with
         | some yi => if inst.nospec || (inst.long.isSome && !windowKind st') then [] else specFilter inst.base st' hist yi
         -- a panic the model predicts (exact division by zero shows as `err` in the model's output) is agreement
         | none => if y.any (fun v => match v with | .err => true | _ => false) then []
